@@ -5,7 +5,15 @@
      wf_val v    = true : real Python values (dict keys hashable and pairwise non-==)
      dict_free v = true : no dict anywhere inside
    dict_free implies wf_val.  Everything is first proved for an abstract domain [D] on which ==
-   is an equivalence (Section Inst), and then instantiated. *)
+   is an equivalence (Section Inst), and then instantiated.
+
+   Main results: cond_eqb_refl/sym/trans/commute (generic, sec. 3); py_eq_refl_wf, py_eq_sym_df,
+   py_eq_trans_mid/_df (sec. 4); py_eq_sym_wf, py_eq_trans_wf (sec. 6, pigeonhole on dict keys);
+   build1_buildable (sec. 7); C14_{cond,part,path,cond1,rule,schema}_{refl,sym,trans},
+   C14_*_commute, C14_rebuild* on wf_val (sec. 9) and *_df on dict_free (sec. 10);
+   counterexamples outside the domains (sec. 11).
+   Side conditions: cond_wf (keyword names of a leaf distinct), casts_wf (cast-from types distinct),
+   path_args_buildable (mk_path succeeds on data-path arguments; derived for built conditions). *)
 From Coq Require Import ZArith NArith List Bool String Lia.
 From Valida Require Import Py Lang Defs Cond Dsl Path Cast RuleDefs Rule Eq.
 From Valida.Proofs Require Import C04Proof.
@@ -1075,7 +1083,234 @@ Proof.
   intros t c H a Ha. specialize (G t c H). rewrite Forall_forall in G. apply G. exact Ha.
 Qed.
 
+(* ------------------------------------------------------------------ *)
+(* 8. schemas.  Eq.v has no schema equality; Schema.__eq__ compares the (sorted) rule lists
+      element-wise with Rule.__eq__ (and rule_tests, which is None until validate is called).
+      A rule is paired with the given-ness of its cast, as in rule_eqb. *)
+
+Definition schema_eqb (T : tables) (a b : list (rule * bool)) : bool :=
+  list_eqb (fun x y => rule_eqb T (fst x) (fst y) (snd x) (snd y)) a b.
+
+Section SchemaInst.
+  Variable D : pyval -> bool.
+  Hypothesis D_refl : forall v, D v = true -> py_eq v v = true.
+  Hypothesis D_sym : forall a b, D a = true -> D b = true -> py_eq a b = py_eq b a.
+  Hypothesis D_trans : forall a b c, D a = true -> D b = true -> D c = true ->
+    py_eq a b = true -> py_eq b c = true -> py_eq a c = true.
+  Variable T : tables.
+
+  Definition schema_ok (s : list (rule * bool)) : Prop := forall x, In x s -> rule_ok D T (fst x).
+  Definition schema_buildable (s : list (rule * bool)) : Prop :=
+    forall x, In x s -> path_args_buildable T (r_cond (fst x)).
+
+  Theorem schema_eqb_refl_D s : schema_ok s -> schema_buildable s -> schema_eqb T s s = true.
+  Proof.
+    intros Hok Hb. apply list_eqb_refl. intros x Hx. apply (rule_eqb_refl_D D D_refl); auto.
+  Qed.
+  Theorem schema_eqb_sym_D a b : schema_ok a -> schema_ok b -> schema_eqb T a b = schema_eqb T b a.
+  Proof.
+    intros Ha Hb. apply list_eqb_sym. intros x y Hx Hy. apply (rule_eqb_sym_D D D_sym); auto.
+  Qed.
+  Theorem schema_eqb_trans_D a b c : schema_ok a -> schema_ok b -> schema_ok c ->
+    schema_eqb T a b = true -> schema_eqb T b c = true -> schema_eqb T a c = true.
+  Proof.
+    intros Ha Hb Hc. apply list_eqb_trans. intros x y z Hx Hy Hz. apply (rule_eqb_trans_D D D_trans); auto.
+  Qed.
+End SchemaInst.
+
+(* ------------------------------------------------------------------ *)
+(* 9. C14 on well-formed Python values (D := wf_val): the literal arguments, labels and source
+      documents are arbitrary well-formed values, dicts included *)
+
+Notation WF := wf_val (only parsing).
+
+Theorem C14_cond_refl c : cond0_ok WF c -> cond0_eqb c c = true.
+Proof. apply (cond0_eqb_refl_D WF py_eq_refl_wf). Qed.
+Theorem C14_cond_sym a b : cond0_ok WF a -> cond0_ok WF b -> cond0_eqb a b = cond0_eqb b a.
+Proof. apply (cond0_eqb_sym_D WF py_eq_sym_wf). Qed.
+Theorem C14_cond_trans a b c : cond0_ok WF a -> cond0_ok WF b -> cond0_ok WF c ->
+  cond0_eqb a b = true -> cond0_eqb b c = true -> cond0_eqb a c = true.
+Proof. apply (cond0_eqb_trans_D WF py_eq_trans_wf). Qed.
+Theorem C14_cond_commute o a b : cond0_ok WF a -> cond0_ok WF b -> cond0_eqb (CBin o a b) (CBin o b a) = true.
+Proof. apply (cond0_eqb_commute_D WF py_eq_refl_wf). Qed.
+
+Theorem C14_part_refl p : part_ok WF p -> part_eqb p p = true.
+Proof. apply (part_eqb_refl_D WF py_eq_refl_wf). Qed.
+Theorem C14_part_sym p q : part_ok WF p -> part_ok WF q -> part_eqb p q = part_eqb q p.
+Proof. apply (part_eqb_sym_D WF py_eq_sym_wf). Qed.
+Theorem C14_part_trans p q r : part_ok WF p -> part_ok WF q -> part_ok WF r ->
+  part_eqb p q = true -> part_eqb q r = true -> part_eqb p r = true.
+Proof. apply (part_eqb_trans_D WF py_eq_trans_wf). Qed.
+
+Theorem C14_path_refl p : path_ok WF p -> path_eqb p p = true.
+Proof. apply (path_eqb_refl_D WF py_eq_refl_wf). Qed.
+Theorem C14_path_sym p q : path_ok WF p -> path_ok WF q -> path_eqb p q = path_eqb q p.
+Proof. apply (path_eqb_sym_D WF py_eq_sym_wf). Qed.
+Theorem C14_path_trans p q r : path_ok WF p -> path_ok WF q -> path_ok WF r ->
+  path_eqb p q = true -> path_eqb q r = true -> path_eqb p r = true.
+Proof. apply (path_eqb_trans_D WF py_eq_trans_wf). Qed.
+
+Theorem C14_cond1_refl T c : cond1_ok WF T c -> path_args_buildable T c -> cond1_eqb T c c = true.
+Proof. apply (cond1_eqb_refl_D WF py_eq_refl_wf). Qed.
+Theorem C14_cond1_sym T a b : cond1_ok WF T a -> cond1_ok WF T b -> cond1_eqb T a b = cond1_eqb T b a.
+Proof. apply (cond1_eqb_sym_D WF py_eq_sym_wf). Qed.
+Theorem C14_cond1_trans T a b c : cond1_ok WF T a -> cond1_ok WF T b -> cond1_ok WF T c ->
+  cond1_eqb T a b = true -> cond1_eqb T b c = true -> cond1_eqb T a c = true.
+Proof. apply (cond1_eqb_trans_D WF py_eq_trans_wf). Qed.
+Theorem C14_cond1_commute T o a b : cond1_ok WF T a -> cond1_ok WF T b ->
+  path_args_buildable T a -> path_args_buildable T b -> cond1_eqb T (CBin o a b) (CBin o b a) = true.
+Proof. apply (cond1_eqb_commute_D WF py_eq_refl_wf). Qed.
+
+Theorem C14_rule_refl T r g : rule_ok WF T r -> path_args_buildable T (r_cond r) -> rule_eqb T r r g g = true.
+Proof. apply (rule_eqb_refl_D WF py_eq_refl_wf). Qed.
+Theorem C14_rule_sym T a b ga gb : rule_ok WF T a -> rule_ok WF T b -> rule_eqb T a b ga gb = rule_eqb T b a gb ga.
+Proof. apply (rule_eqb_sym_D WF py_eq_sym_wf). Qed.
+Theorem C14_rule_trans T a b c ga gb gc : rule_ok WF T a -> rule_ok WF T b -> rule_ok WF T c ->
+  rule_eqb T a b ga gb = true -> rule_eqb T b c gb gc = true -> rule_eqb T a c ga gc = true.
+Proof. apply (rule_eqb_trans_D WF py_eq_trans_wf). Qed.
+
+Theorem C14_schema_refl T s : schema_ok WF T s -> schema_buildable T s -> schema_eqb T s s = true.
+Proof. apply (schema_eqb_refl_D WF py_eq_refl_wf). Qed.
+Theorem C14_schema_sym T a b : schema_ok WF T a -> schema_ok WF T b -> schema_eqb T a b = schema_eqb T b a.
+Proof. apply (schema_eqb_sym_D WF py_eq_sym_wf). Qed.
+Theorem C14_schema_trans T a b c : schema_ok WF T a -> schema_ok WF T b -> schema_ok WF T c ->
+  schema_eqb T a b = true -> schema_eqb T b c = true -> schema_eqb T a c = true.
+Proof. apply (schema_eqb_trans_D WF py_eq_trans_wf). Qed.
+
+(* separately built copies of one definition compare equal (build1 is a function, and the
+   data-path arguments of a condition that was built are buildable) *)
+Theorem C14_rebuild T t c c' : build1 T t = Ok c -> build1 T t = Ok c' ->
+  cond1_ok WF T c -> cond1_eqb T c c' = true.
+Proof.
+  intros H1 H2 Hok. apply (C14_rebuild_D WF py_eq_refl_wf T t c c' H1 H2 Hok).
+  eapply build1_buildable. exact H1.
+Qed.
+
+Theorem C14_rebuild_rule T t r r' g : mk_rule T t = Ok r -> mk_rule T t = Ok r' ->
+  rule_ok WF T r -> rule_eqb T r r' g g = true.
+Proof.
+  intros H1 H2 Hok. rewrite H1 in H2. inversion H2; subst r'. apply C14_rule_refl; [ exact Hok | ].
+  unfold mk_rule in H1.
+  destruct (mk_path T id0 (rt_path_t t)) as [ p | ]; [ | discriminate ]. cbn [bind] in H1.
+  destruct (build1 T (rt_cond_t t)) as [ c | ] eqn:E; [ | discriminate ]. cbn [bind] in H1.
+  inversion H1; subst. cbn [r_cond]. eapply build1_buildable. exact E.
+Qed.
+
+(* ------------------------------------------------------------------ *)
+(* 10. the same on dict-free values (D := dict_free), from the elementary proofs of section 4 *)
+
+Lemma py_eq_refl_df v : dict_free v = true -> py_eq v v = true.
+Proof. intros H. apply py_eq_refl_wf, dict_free_wf, H. Qed.
+Lemma py_eq_sym_df2 a b : dict_free a = true -> dict_free b = true -> py_eq a b = py_eq b a.
+Proof. intros Ha _. apply py_eq_sym_df, Ha. Qed.
+
+Theorem C14_cond_refl_df c : cond0_ok dict_free c -> cond0_eqb c c = true.
+Proof. apply (cond0_eqb_refl_D dict_free py_eq_refl_df). Qed.
+Theorem C14_cond_sym_df a b : cond0_ok dict_free a -> cond0_ok dict_free b -> cond0_eqb a b = cond0_eqb b a.
+Proof. apply (cond0_eqb_sym_D dict_free py_eq_sym_df2). Qed.
+Theorem C14_cond_trans_df a b c : cond0_ok dict_free a -> cond0_ok dict_free b -> cond0_ok dict_free c ->
+  cond0_eqb a b = true -> cond0_eqb b c = true -> cond0_eqb a c = true.
+Proof. apply (cond0_eqb_trans_D dict_free py_eq_trans_df). Qed.
+Theorem C14_part_sym_df p q : part_ok dict_free p -> part_ok dict_free q -> part_eqb p q = part_eqb q p.
+Proof. apply (part_eqb_sym_D dict_free py_eq_sym_df2). Qed.
+Theorem C14_part_trans_df p q r : part_ok dict_free p -> part_ok dict_free q -> part_ok dict_free r ->
+  part_eqb p q = true -> part_eqb q r = true -> part_eqb p r = true.
+Proof. apply (part_eqb_trans_D dict_free py_eq_trans_df). Qed.
+Theorem C14_path_sym_df p q : path_ok dict_free p -> path_ok dict_free q -> path_eqb p q = path_eqb q p.
+Proof. apply (path_eqb_sym_D dict_free py_eq_sym_df2). Qed.
+Theorem C14_path_trans_df p q r : path_ok dict_free p -> path_ok dict_free q -> path_ok dict_free r ->
+  path_eqb p q = true -> path_eqb q r = true -> path_eqb p r = true.
+Proof. apply (path_eqb_trans_D dict_free py_eq_trans_df). Qed.
+Theorem C14_rule_sym_df T a b ga gb : rule_ok dict_free T a -> rule_ok dict_free T b ->
+  rule_eqb T a b ga gb = rule_eqb T b a gb ga.
+Proof. apply (rule_eqb_sym_D dict_free py_eq_sym_df2). Qed.
+Theorem C14_rule_trans_df T a b c ga gb gc : rule_ok dict_free T a -> rule_ok dict_free T b -> rule_ok dict_free T c ->
+  rule_eqb T a b ga gb = true -> rule_eqb T b c gb gc = true -> rule_eqb T a c ga gc = true.
+Proof. apply (rule_eqb_trans_D dict_free py_eq_trans_df). Qed.
+
+(* ------------------------------------------------------------------ *)
+(* 11. why the domains are needed: counterexamples on ill-formed model values *)
+
+(* a "dict" with two == keys is not == to itself *)
+Definition bad_dict : pyval := VDict [ (VInt 1, VInt 10); (VBool true, VInt 20) ].
+Example py_eq_not_refl : py_eq bad_dict bad_dict = false /\ wf_val bad_dict = false.
+Proof. split; vm_compute; reflexivity. Qed.
+
+(* with an ill-formed dict on one side == is not symmetric: the second (shadowed) entry of
+   dup_dict is never looked at from the other side *)
+Definition dup_dict : pyval := VDict [ (VInt 1, VInt 10); (VBool true, VInt 10) ].
+Definition ok_dict : pyval := VDict [ (VInt 1, VInt 10); (VInt 2, VInt 20) ].
+Example py_eq_not_sym : py_eq dup_dict ok_dict = true /\ py_eq ok_dict dup_dict = false
+  /\ wf_val dup_dict = false /\ wf_val ok_dict = true.
+Proof. repeat split; vm_compute; reflexivity. Qed.
+
+(* duplicated keyword names break reflexivity of kw_eqb, hence cond_wf *)
+Definition bad_leaf : leaf pyval :=
+  {| l_cls := "Value"; l_kind := DValue; l_pre := PNone; l_call := "f"; l_args := [];
+     l_kwargs := [ ("x"%string, VInt 1); ("x"%string, VInt 2) ] |}.
+Example cond_eqb_not_refl : cond0_eqb (CLeaf bad_leaf) (CLeaf bad_leaf) = false.
+Proof. vm_compute. reflexivity. Qed.
+
+Corollary C14_rebuild_refl T t c : build1 T t = Ok c -> cond1_ok wf_val T c -> cond1_eqb T c c = true.
+Proof. intros H. apply (C14_rebuild T t c c H H). Qed.
+
+(* ------------------------------------------------------------------ *)
+(* Unfinished / not derivable here:
+   - [cond_wf c] (keyword names of every leaf pairwise distinct) is kept as a hypothesis on built
+     conditions.  Deriving it from [build1 T t = Ok c] needs NoDup of the caller's keyword names
+     and facts about the generated constructor table (distinct StKw names, disjoint from **kwargs),
+     i.e. unfolding T:
+       forall T t c, build1 T t = Ok c -> (kw names of every DLeaf of t NoDup) -> cond_wf c.
+   - Eq.v defines no schema equality; [schema_eqb] above is local to this file.              *)
+
 Print Assumptions cond_eqb_refl.
 Print Assumptions cond_eqb_commute.
+Print Assumptions cond_eqb_commute_l.
+Print Assumptions cond_eqb_commute_r.
 Print Assumptions cond_eqb_sym.
 Print Assumptions cond_eqb_trans.
+Print Assumptions py_eq_refl_wf.
+Print Assumptions py_eq_sym_df.
+Print Assumptions py_eq_trans_mid.
+Print Assumptions py_eq_trans_df.
+Print Assumptions py_eq_sym_wf.
+Print Assumptions py_eq_trans_wf.
+Print Assumptions casts_eqb_refl.
+Print Assumptions casts_eqb_sym.
+Print Assumptions casts_eqb_trans.
+Print Assumptions build1_buildable.
+Print Assumptions C14_cond_refl.
+Print Assumptions C14_cond_sym.
+Print Assumptions C14_cond_trans.
+Print Assumptions C14_cond_commute.
+Print Assumptions C14_part_refl.
+Print Assumptions C14_part_sym.
+Print Assumptions C14_part_trans.
+Print Assumptions C14_path_refl.
+Print Assumptions C14_path_sym.
+Print Assumptions C14_path_trans.
+Print Assumptions C14_cond1_refl.
+Print Assumptions C14_cond1_sym.
+Print Assumptions C14_cond1_trans.
+Print Assumptions C14_cond1_commute.
+Print Assumptions C14_rule_refl.
+Print Assumptions C14_rule_sym.
+Print Assumptions C14_rule_trans.
+Print Assumptions C14_schema_refl.
+Print Assumptions C14_schema_sym.
+Print Assumptions C14_schema_trans.
+Print Assumptions C14_rebuild.
+Print Assumptions C14_rebuild_refl.
+Print Assumptions C14_rebuild_rule.
+Print Assumptions C14_cond_refl_df.
+Print Assumptions C14_cond_sym_df.
+Print Assumptions C14_cond_trans_df.
+Print Assumptions C14_part_sym_df.
+Print Assumptions C14_part_trans_df.
+Print Assumptions C14_path_sym_df.
+Print Assumptions C14_path_trans_df.
+Print Assumptions C14_rule_sym_df.
+Print Assumptions C14_rule_trans_df.
+Print Assumptions py_eq_not_refl.
+Print Assumptions py_eq_not_sym.
+Print Assumptions cond_eqb_not_refl.
